@@ -87,6 +87,13 @@ func (m *hotReloadManager) prepareDevServer() (srv *http.Server, compiled bool, 
 		return nil, false, fmt.Errorf("parse error: %w", err)
 	}
 
+	// An editor saves by truncating the file and writing afterwards, so the
+	// watcher can see it empty in between; an empty source is not a version
+	// to replace the running one with.
+	if m.server != nil && len(module.Items) == 0 {
+		return nil, false, fmt.Errorf("source is empty")
+	}
+
 	// Use shared logic for route compilation/interpretation
 	useCompiler, _, wsServer, router, err := setupRoutes(module, m.filePath)
 	if err != nil {
